@@ -126,6 +126,21 @@ func buildAcceptNAS(r *rand.Rand, ueIP net.IP, qosLen int, mask int) ([]byte, st
 	// protected with NEA0 (the emulator's only ciphering algorithm), NIA2
 	k := rbytes(r, 16)
 	out, _ := sec.ProtectNAS(2, 0, k, k, uint32(r.Intn(1<<16)), 1, 1, 2, true, mm)
+	if r.Intn(6) == 0 && len(out) > 7 {
+		// a NAS-MAC is 32 pseudo-random bits and the extractor is never given the key: every value is the MAC of this message
+		// under SOME key. One that READS AS THE HEADER of the plain message behind it (7e 00 68 01 = 5GMM, plain, DL NAS
+		// TRANSPORT, N1 SM container) - alone, or together with the sequence number octet - is data like any other.
+		switch r.Intn(3) {
+		case 0:
+			copy(out[2:6], []byte{0x7e, 0x00, 0x68, 0x01})
+		case 1:
+			copy(out[3:7], []byte{0x7e, 0x00, 0x68, 0x01}) // MAC[1..3] and the sequence number
+		default:
+			copy(out[2:6], []byte{0x2e, out[8+6], out[8+7], 0xc2}) // ... or as the header of the 5GSM message inside
+			copy(out[4:7], []byte{0x7e, 0x00, 0x68})
+		}
+		desc += "mac-reads-as-a-message-header,"
+	}
 	return out, desc
 }
 
